@@ -44,6 +44,12 @@ CHECKS = {
  "C20": ("disk-fault enumeration on the wallet file between SaveWallet and ReadWallet: every torn-write length, every single-byte corruption with every value, wrong and illegal keys, stale file",
          "Per seeded wallet and key the fault positions are enumerated exhaustively: every prefix length of the file, every byte position set to each of the 255 other values, 40 wrong keys (incl. one-bit neighbours), 8 illegal key lengths, another wallet's file; the result must be the identical wallet for the untouched file and an error otherwise, never a panic.",
          "wallets and keys are sampled from the seed; fault positions per wallet are exhaustive", "5 C20"),
+ "C15": ("deterministic simulation with byzantine-client and byzantine-peer faults: shape-product frames (mixed-radix enumeration by seed) delivered to the real handlers of a live small network under recover; malformed vertices returned by peers during parent fetch and sync",
+         "60-100 malformed but decodable frames per run against the notary, gossip and webhooks handlers of nodes that hold a real ledger, awaiting contract, challenge and peers; a share of frames carries valid attacker signatures over data of any shape. Any panic (in the handler or in a goroutine it left behind) is a violation keyed by rpc and panicking function; a refused request must leave ledger, awaiting lists and peer table unchanged.",
+         "coverage-guided mutation named in the quantifier is another technique; here shapes are enumerated by seed and sampled, which the evidence counts", "5 C15"),
+ "C16": ("deterministic simulation: seeded sequences of honest and dishonest notary clients on 1-3 nodes (fine-mode concurrent duplicates, clock jumps past challenge expiry) + reference notary state machine",
+         "Every response is judged by a reference notary: data-carrying transactions may appear in a ledger only after a valid confirm or a receiver-signed reject, at most once; pure transfers only after a validly signed proposal; requests with invalid signatures must fail and change neither ledger nor awaiting lists; listings, history and balances are served only against proof of key ownership and contain only the caller's data.",
+         "availability of honest reads (throttle) is reported, not required; expiry windows are read from the code", "5 C16"),
 }
 
 NOT_YET = {}
